@@ -37,7 +37,29 @@ def plan(tier):
     return {"cases": 9000, "wall_s": 140} if tier == "quick" else {"cases": 300000, "wall_s": 1700}
 
 
+def boundary_text(rng, tag):
+    """a document larger than one I/O block in which a multi-byte character straddles a block
+    boundary (readers that decode block by block see half a character on either side)"""
+    block = rng.choice([4096, 8192, 8192, 16384, 65536])
+    k = rng.randint(1, 2)
+    ch = rng.choice(["é", "λ", "中", "€", "\U0001F600"])
+    inside = rng.randint(1, len(ch.encode("utf-8")) - 1)  # bytes of the character before the boundary
+    target = block * k - inside                           # byte offset at which the character starts
+    out = []
+    size = 0
+    while target - size > 200:
+        ln = "! " + "pad " * rng.randint(3, 20)
+        out.append(ln)
+        size += len(ln) + 1
+    room = target - size - 2
+    out.append("! " + "y" * room + ch + " straddles")
+    body = gen.small_program(rng, tag).split("\n")
+    return "\n".join(out + body), ".f90"
+
+
 def initial_text(rng, tag, astral=False):
+    if rng.random() < 0.05:
+        return boundary_text(rng, tag)
     r = rng.random()
     if r < 0.35:
         rel, text = rng.choice(gen.corpus_sources())
@@ -165,6 +187,15 @@ def gen_sched(g):
                 faults.append({"op": len(ops) - 1, "seam": "open", "nth": 0,
                                "kind": rng.choice(["enoent", "eio", "eacces", "eio-read"])})
             docs[p] = model.lines_from_disk(text.encode("utf-8"))
+            ops.append({"k": "obs", "what": "buffer"})
+        elif r < 0.92:
+            # the file of the open document changes on disk behind the editor's back and the file
+            # watcher says so: the buffer is the truth until the user saves or reverts
+            other = rng.choice(["", "! replaced by another tool\n", disk[p] + "! appended\n", disk[p]])
+            disk[p] = other
+            ops.append(gen.env_write(p, other))
+            ops.append(gen.note("workspace/didChangeWatchedFiles",
+                                {"changes": [{"uri": gen.uri(p), "type": rng.choice([1, 2, 2])}]}))
             ops.append({"k": "obs", "what": "buffer"})
         elif r < 0.95:
             ops.append(gen.did_close(p))
